@@ -80,9 +80,23 @@ project.setup(INSTANCE)
 '''
 
 PIPELINE = r'''
+import os
+import socket
 import time
 from forml import project
 from forml.pipeline import wrap
+
+
+def _gate(token):
+    """controlled sessions: announce that this request is being computed, then wait until the controller says go"""
+    conn = socket.socket(socket.AF_UNIX, socket.SOCK_STREAM)
+    conn.settimeout(900)
+    try:
+        conn.connect(os.environ['C16_GATE'])
+        conn.sendall(f'{token} {os.getpid()}\n'.encode())
+        conn.recv(1)
+    finally:
+        conn.close()
 
 
 @wrap.Actor.train
@@ -93,11 +107,14 @@ def model(state, features, labels):
 @wrap.Operator.apply
 @model.apply
 def model(state, rows):
-    """value = state * 10^6 + token * 10 + row index; sleeps for the largest delay of the request;
-    a negative delay is the non-platform failure."""
+    """value = state * 10^6 + token * 10 + row index; sleeps for the largest delay of the request (or, in a
+    controlled session, waits at the gate); a negative delay is the non-platform failure."""
+    if os.environ.get('C16_GATE') and len(rows):
+        _gate(int(rows[0][0]))
     if any(int(r[1]) < 0 for r in rows):
         raise ValueError('boom')
-    time.sleep(max((int(r[1]) for r in rows), default=0) / 1000.0)
+    if not os.environ.get('C16_GATE'):
+        time.sleep(max((int(r[1]) for r in rows), default=0) / 1000.0)
     return [int(state) * 1000000 + int(r[0]) * 10 + i for i, r in enumerate(rows)]
 
 
@@ -243,13 +260,16 @@ async def main(plan):
             for t in pending:
                 t.cancel()
         out['batches'].append({'lost': lost, 'alive': alive, 'wall': round(time.time() - t0, 3)})
+        if lost:  # what follows would only wait for the same dead end again
+            break
     out['events'] = events
     out['race_log'] = getattr(inventory, 'log', [])
     sys.stdout.write('C16-TRACE ' + json.dumps(out) + '\n')
     sys.stdout.flush()
-    stopper = threading.Thread(target=engine.shutdown, daemon=True)
-    stopper.start()
-    stopper.join(plan.get('shutdown_s', 20))
+    if plan.get('shutdown_s'):  # otherwise the parent kills the whole process group: shutting down is not under test
+        stopper = threading.Thread(target=engine.shutdown, daemon=True)
+        stopper.start()
+        stopper.join(plan['shutdown_s'])
 
 
 if __name__ == '__main__':
@@ -262,10 +282,545 @@ if __name__ == '__main__':
     os._exit(0)
 '''
 
+CTL_SESSION = r'''
+"""Controlled serving session against the real engine.
+
+The real `Engine` (Wrapper, Dealer, prediction.Executor, Pool, forked workers) runs on an event loop whose
+`run_in_executor` is intercepted (every off-loop call of a caller becomes a pending item that only the controller
+starts, in the real pool it was meant for), with an inventory double whose `list()` can park the calling thread, and
+with model actors that wait at a gate (unix socket) inside the worker processes.  The controller performs one action
+at a time - `arrive c`, `start c` (the caller's pending off-loop call), `list c` (un-park), `gate c` (let the worker
+finish c's task) - picked by a seeded PRNG among those available (or taken from a recorded list), and lets the
+system settle in between.  So the interleaving is chosen, varied and replayable instead of left to the OS.
+Reads the plan from argv[1] (json), prints the trace (json).
+"""
+import asyncio
+import collections
+import json
+import logging
+import os
+import pathlib
+import random
+import socket
+import sys
+import threading
+import time
+import warnings
+from concurrent import futures as cf
+
+warnings.filterwarnings('ignore')
+
+import c16_session as base  # noqa: E402  (build(): registry + descriptors)
+
+TL = threading.local()
+
+
+class Loop(asyncio.SelectorEventLoop):
+    """event loop handing the callers' off-loop calls to the controller"""
+
+    ctl = None
+
+    def run_in_executor(self, executor, func, *args):
+        ctl = self.ctl
+        c = None
+        if ctl is not None:
+            try:
+                c = ctl.caller_of.get(asyncio.current_task(loop=self))
+            except RuntimeError:
+                c = None
+        if c is None:
+            return super().run_in_executor(executor, func, *args)
+        return ctl.intercept(c, executor, func, args, super().run_in_executor)
+
+
+class GateServer(threading.Thread):
+    """accepts the connections of the model actors (one per task being computed)"""
+
+    def __init__(self, path, loop, on_taken):
+        super().__init__(daemon=True, name='c16-gate')
+        self.sock = socket.socket(socket.AF_UNIX, socket.SOCK_STREAM)
+        self.sock.bind(path)
+        self.sock.listen(256)
+        self.loop, self.on_taken = loop, on_taken
+
+    def run(self):
+        while True:
+            try:
+                conn, _ = self.sock.accept()
+            except OSError:
+                return
+            try:
+                conn.settimeout(30)
+                buf = b''
+                while not buf.endswith(b'\n'):
+                    chunk = conn.recv(64)
+                    if not chunk:
+                        break
+                    buf += chunk
+                token, pid = buf.decode().split()
+                conn.settimeout(None)
+                self.loop.call_soon_threadsafe(self.on_taken, int(token), int(pid), conn)
+            except Exception:  # pylint: disable=broad-except
+                conn.close()
+
+
+def make_inventory(descriptors, ctl):
+    from forml.io import asset
+
+    class Inventory(asset.Inventory):
+        """in-memory inventory; list() parks the calling pool thread until the controller releases it"""
+
+        def __init__(self):
+            self._content = {d.name: d for d in descriptors}
+
+        def list(self):
+            c = getattr(TL, 'caller', None)
+            if ctl.gate_list and c is not None:
+                ev = threading.Event()
+                ctl.loop.call_soon_threadsafe(ctl.on_park, c, ev)
+                ev.wait(900)
+            return list(self._content)
+
+        def get(self, application):
+            return self._content[application.lower()]
+
+        def put(self, descriptor):
+            raise NotImplementedError
+
+    return Inventory()
+
+
+class Control:
+    STEP_TIMEOUT = 150.0   # a started off-loop call with nothing parked must come back: far beyond any real latency
+    BLOCK_WAIT = 0.2       # while a thread is parked in list(): how long started calls get to reach a control point
+    SPAWN_TIMEOUT = 150.0  # first task of an instance: manager + spawned pool + forked workers have to come up
+    EXPECT_TIMEOUT = 20.0  # any other expected consequence of an action
+    LOST_DEADLINE = 90.0   # nothing left to do, a caller unanswered, no event for this long => reported as lost
+    BUDGET = 330.0         # whole session
+
+    def __init__(self, plan, loop):
+        self.plan, self.loop = plan, loop
+        self.gate_list = bool(plan.get('gate_list'))
+        self.workers = plan['processes']
+        self.t0 = time.time()
+        self.seq = 0
+        self.version = 0
+        self.changed = asyncio.Event()
+        self.log = []
+        self.reqs = {}
+        self.caller_of = {}
+        self.task_of = {}
+        self.off = {}           # c -> pending / started off-loop call
+        self.noff = collections.Counter()
+        self.parked = {}        # c -> threading.Event
+        self.taken = collections.defaultdict(list)   # c -> connections of actors computing c's task
+        self.by_token = {}
+        self.st = {}            # c -> new | off | dealer | held | done
+        self.done = set()
+        self.arrived = set()
+        self.q = collections.defaultdict(collections.deque)   # instance -> callers submitted, not yet seen taken
+        self.held = collections.defaultdict(set)
+        self.spawned = set()
+        self.after_gate = []
+        self.back = []
+        self.flags = collections.Counter()
+        self.flag_notes = []
+        self.engine = None
+
+    # ---- log -----------------------------------------------------------------------------------------------------
+    def emit(self, ev, c, **kw):
+        self.seq += 1
+        rec = {'seq': self.seq, 't': round(time.time() - self.t0, 4), 'ev': ev, 'c': c}
+        rec.update(kw)
+        self.log.append(rec)
+        self.poke()
+
+    def poke(self):
+        self.version += 1
+        self.changed.set()
+
+    def flag(self, what, detail):
+        self.flags[what] += 1
+        if len(self.flag_notes) < 12:
+            self.flag_notes.append(f'{what}: {detail}')
+
+    @property
+    def degraded(self):
+        return sum(self.flags.values()) >= 3
+
+    # ---- interception points (all run on the loop thread) ------------------------------------------------------------
+    def intercept(self, c, executor, func, args, real_run):
+        self.noff[c] += 1
+        k = self.noff[c]
+        proxy = self.loop.create_future()
+        if isinstance(executor, cf.ThreadPoolExecutor) or executor is None:
+            def call(*a):
+                TL.caller = c
+                try:
+                    return func(*a)
+                finally:
+                    TL.caller = None
+        else:
+            call = func  # process pool: the callable must stay picklable
+        if self.st.get(c) == 'held':
+            self.held[self.inst_of(c)].discard(c)
+        self.st[c] = 'off'
+        self.off[c] = {'k': k, 'proxy': proxy, 'started': False, 'thunk': lambda: real_run(executor, call, *args)}
+        self.emit('offload', c, k=k, pool=type(executor).__name__)
+        return proxy
+
+    def on_park(self, c, ev):
+        self.parked[c] = ev
+        self.emit('park', c)
+
+    def on_taken(self, token, pid, conn):
+        c = self.by_token.get(token)
+        if c is None:
+            conn.sendall(b'g')
+            conn.close()
+            self.flag('unknown-token', token)
+            return
+        self.taken[c].append(conn)
+        self.spawned.add(self.inst_of(c))
+        self.emit('taken', c, pid=pid)
+
+    def inst_of(self, c):
+        return self.reqs[c].get('inst')
+
+    # ---- the caller ----------------------------------------------------------------------------------------------
+    async def call(self, req):
+        from forml.io import layout
+
+        c = req['c']
+        self.emit('arrive', c)
+        try:
+            request = layout.Request(req['body'].encode(), layout.Encoding(req['enc']),
+                                     accept=[layout.Encoding(req['accept'])])
+            resp = await self.engine.apply(req['app'], request)
+            rec = {'ok': True, 'data': bytes(resp.payload.data).decode(), 'enc': str(resp.payload.encoding.kind),
+                   'instance': str(resp.instance)}
+        except asyncio.CancelledError:
+            raise
+        except BaseException as err:  # pylint: disable=broad-except
+            rec = {'ok': False, 'cls': type(err).__name__, 'msg': str(err)[:160]}
+        if self.st.get(c) == 'held':
+            self.held[self.inst_of(c)].discard(c)
+        self.st[c] = 'done'
+        self.done.add(c)
+        self.emit('answer', c, **rec)
+
+    # ---- actions -------------------------------------------------------------------------------------------------
+    def available(self, todo):
+        acts = [('arrive', c) for c in todo if c not in self.arrived]
+        acts += [('start', c) for c, o in sorted(self.off.items()) if not o['started']]
+        acts += [('list', c) for c in sorted(self.parked)]
+        acts += [('gate', c) for c in sorted(self.taken) if self.taken[c]]
+        return acts
+
+    def perform(self, act):
+        kind, c = act
+        if kind == 'arrive':
+            self.arrived.add(c)
+            self.st[c] = 'new'
+            task = self.loop.create_task(self.call(self.reqs[c]))
+            self.caller_of[task] = c
+            self.task_of[c] = task
+            self.emit('do-arrive', c)
+        elif kind == 'start':
+            o = self.off[c]
+            o['started'] = True
+            self.emit('start', c, k=o['k'])
+            real = o['thunk']()
+
+            def finished(fut, c=c, o=o):
+                if self.off.get(c) is o:
+                    del self.off[c]
+                self.back.append(c)
+                exc = asyncio.CancelledError() if fut.cancelled() else fut.exception()
+                self.emit('offdone', c, k=o['k'], ok=exc is None)
+                if o['proxy'].done():
+                    return
+                if exc is None:
+                    o['proxy'].set_result(fut.result())
+                else:
+                    o['proxy'].set_exception(exc)
+
+            real.add_done_callback(finished)
+        elif kind == 'list':
+            ev = self.parked.pop(c)
+            self.emit('list', c)
+            ev.set()
+        elif kind == 'gate':
+            conns, self.taken[c] = self.taken[c], []
+            i = self.inst_of(c)
+            if self.st.get(c) == 'dealer':  # taken out of turn as far as the book-keeping goes
+                try:
+                    self.q[i].remove(c)
+                except ValueError:
+                    pass
+                self.held[i].add(c)
+                self.st[c] = 'held'
+            self.emit('gate', c, n=len(conns))
+            for conn in conns:
+                try:
+                    conn.sendall(b'g')
+                except OSError:
+                    pass
+                conn.close()
+            self.after_gate.append(c)
+
+    def choose(self, acts, rng, rnd, script):
+        """-> list of actions performed back to back (more than one = burst)"""
+        while script:
+            want = tuple(script.pop(0))
+            if want in acts:
+                return [want]
+            self.flag('script-miss', want)
+        kinds = sorted({a[0] for a in acts})
+        weights = [max(1e-6, float(rnd['weights'].get(k, 1.0))) for k in kinds]
+        kind = rng.choices(kinds, weights)[0]
+        cands = [a for a in acts if a[0] == kind]
+        order = rnd.get('order', 'random')
+        if order == 'fifo':
+            first = cands[0]
+        elif order == 'lifo':
+            first = cands[-1]
+        else:
+            first = rng.choice(cands)
+        out = [first]
+        if rng.random() < rnd.get('burst', 0.0):
+            rest = [a for a in cands if a != first]
+            rng.shuffle(rest)
+            out += rest[:rng.randint(1, 3)]
+        return out
+
+    # ---- settling ------------------------------------------------------------------------------------------------
+    async def wait_change(self, timeout):
+        """wait until any event is logged; False on timeout"""
+        v = self.version
+        deadline = time.time() + timeout
+        while self.version == v:
+            left = deadline - time.time()
+            if left <= 0:
+                return False
+            self.changed.clear()
+            try:
+                await asyncio.wait_for(self.changed.wait(), min(left, 0.5))
+            except asyncio.TimeoutError:
+                pass
+        return True
+
+    async def wait_for(self, cond, timeout):
+        deadline = time.time() + timeout
+        while not cond():
+            left = deadline - time.time()
+            if left <= 0:
+                return False
+            await self.wait_change(min(left, 0.5))
+        return True
+
+    async def breathe(self):
+        for _ in range(6):
+            await asyncio.sleep(0)
+
+    async def drain(self):
+        """every started off-loop call comes back - unless a thread is parked inside list(): then the others may
+        legitimately be blocked behind it (lock, pool size); each of them gets BLOCK_WAIT once to show up"""
+        while True:
+            await self.breathe()
+            running = [c for c, o in self.off.items() if o['started']]
+            if self.parked:
+                running = [c for c in running if not self.off[c].get('waited')]
+            if not running:
+                return
+            if self.parked:
+                if not await self.wait_change(self.BLOCK_WAIT):
+                    for c in running:
+                        if c in self.off:
+                            self.off[c]['waited'] = True
+                    return
+            elif not await self.wait_change(1.0 if self.degraded else self.STEP_TIMEOUT):
+                self.flag('stalled', running)
+                return
+
+    def resuming(self, c):
+        """the caller's off-loop call is back but its coroutine has not been resumed yet"""
+        if self.st.get(c) != 'off' or c in self.off or c in self.done:
+            return False
+        waiter = getattr(self.task_of[c], '_fut_waiter', None)
+        return waiter is None or waiter.done()
+
+    async def classify(self):
+        for _ in range(200):
+            if not any(self.resuming(c) for c in self.arrived - self.done):
+                break
+            await asyncio.sleep(0)
+        back, self.back = self.back, []
+        for c in back:  # in the order their off-loop calls came back = the order they reached the dealer
+            if self.st.get(c) == 'off' and c not in self.off and not self.resuming(c):
+                # the caller waits for something that is no off-loop call: its task is with the dealer
+                self.st[c] = 'dealer'
+                self.q[self.inst_of(c)].append(c)
+                self.emit('queued', c)
+
+    async def expectations(self):
+        """wait for the consequences the book-keeping predicts (worker takes the queue head, a gated task reaches
+        its caller); a prediction that does not come true is only flagged - nothing is judged here"""
+        progressed = False
+        for c in list(self.after_gate):
+            ok = await self.wait_for(lambda c=c: self.st.get(c) in ('off', 'done'),
+                                     1.0 if self.degraded else self.EXPECT_TIMEOUT)
+            self.after_gate.remove(c)
+            self.held[self.inst_of(c)].discard(c)
+            if not ok:
+                self.flag('unsettled-gate', c)
+            progressed = True
+        for i in sorted(k for k in self.q if k is not None):
+            while len(self.held[i]) < self.workers:
+                for h in [h for h in self.q[i] if self.st.get(h) != 'dealer']:
+                    self.q[i].remove(h)
+                cands = list(self.q[i])
+                if not cands:
+                    break
+
+                def moved(h):
+                    if self.reqs[h]['fault'] == 'missingColumn':  # fails before it reaches the actor: no gate
+                        return h in self.done
+                    return bool(self.taken[h]) or self.st.get(h) != 'dealer'
+
+                timeout = 1.0 if self.degraded else (self.EXPECT_TIMEOUT if i in self.spawned else self.SPAWN_TIMEOUT)
+                if not await self.wait_for(lambda: any(moved(h) for h in cands), timeout):
+                    self.flag('unsettled-take', cands[:4])
+                    return progressed
+                self.spawned.add(i)
+                progressed = True
+                for h in cands:
+                    if moved(h):
+                        self.q[i].remove(h)
+                        if self.st.get(h) == 'dealer':
+                            self.held[i].add(h)
+                            self.st[h] = 'held'
+        return progressed
+
+    async def settle(self):
+        if self.degraded:
+            self.after_gate.clear()
+            while await self.wait_change(0.3):
+                pass
+            return
+        while True:
+            v = self.version
+            await self.drain()
+            await self.classify()
+            progressed = await self.expectations()
+            await self.breathe()
+            if self.version == v and not progressed:
+                return
+
+    # ---- one round -----------------------------------------------------------------------------------------------
+    async def round(self, rnd):
+        rng = random.Random(rnd['seed'])
+        script = [tuple(a) for a in (rnd.get('actions') or [])]
+        todo = [r['c'] for r in rnd['requests']]
+        performed, lost = [], []
+        while True:
+            await self.settle()
+            if all(c in self.done for c in todo):
+                break
+            if time.time() - self.t0 > self.BUDGET:
+                return {'performed': performed, 'lost': [], 'aborted': 'session budget exhausted'}
+            acts = self.available(todo)
+            if not acts:
+                if not await self.wait_change(20.0 if self.degraded else self.LOST_DEADLINE):
+                    lost = sorted(c for c in todo if c in self.arrived and c not in self.done)
+                    break
+                continue
+            # once several predictions have failed something is wrong with the implementation: no more finesse, every
+            # available action is performed at once so that whatever can still be answered is answered quickly
+            for act in (acts if self.degraded else self.choose(acts, rng, rnd, script)):
+                performed.append(list(act))
+                self.perform(act)
+        alive = None
+        if lost:
+            alive = {str(k): bool(v.is_alive() and v._pool.is_alive()) for k, v in self.engine._dealer._cache.items()}
+        return {'performed': performed, 'lost': lost, 'alive': alive}
+
+    def release_everything(self):
+        for ev in self.parked.values():
+            ev.set()
+        for conns in self.taken.values():
+            for conn in conns:
+                try:
+                    conn.sendall(b'g')
+                    conn.close()
+                except OSError:
+                    pass
+
+
+async def main(plan, loop):
+    import c16_support
+    from forml import io
+    from forml.runtime import _service
+
+    root = pathlib.Path(plan['root'])
+    ctl = Control(plan, loop)
+    Loop.ctl = ctl
+    for rnd in plan['rounds']:
+        for r in rnd['requests']:
+            ctl.reqs[r['c']] = r
+            ctl.by_token[r['token']] = r['c']
+    gate = str(root / 'gate.sock')
+    os.environ['C16_GATE'] = gate
+    GateServer(gate, loop, ctl.on_taken).start()
+    reg, descriptors = base.build(plan, root)
+    inventory = make_inventory(descriptors, ctl)
+    ctl.engine = _service.Engine(inventory, reg, io.Importer(c16_support.Feed()), processes=plan['processes'])
+    out = {'rounds': []}
+    for rnd in plan['rounds']:
+        res = await ctl.round(rnd)
+        res['wall'] = round(time.time() - ctl.t0, 3)
+        res['upto'] = ctl.seq
+        out['rounds'].append(res)
+        if res['lost'] or res.get('aborted'):
+            break
+    out['log'] = ctl.log
+    out['flags'] = dict(ctl.flags)
+    out['flag_notes'] = ctl.flag_notes
+    sys.stdout.write('C16-TRACE ' + json.dumps(out) + '\n')
+    sys.stdout.flush()
+    ctl.release_everything()
+    if plan.get('shutdown_s'):  # otherwise the parent kills the whole process group: shutting down is not under test
+        stopper = threading.Thread(target=ctl.engine.shutdown, daemon=True)
+        stopper.start()
+        stopper.join(plan['shutdown_s'])
+
+
+if __name__ == '__main__':
+    logging.disable(logging.CRITICAL)
+    threading.excepthook = lambda a: None
+    with open(sys.argv[1]) as f:
+        PLAN = json.load(f)
+    LOOP = Loop()
+    asyncio.set_event_loop(LOOP)
+    LOOP.run_until_complete(main(PLAN, LOOP))
+    sys.stdout.flush()
+    os._exit(0)
+'''
+
 KNOWN_APP_MISSING = 'descriptor-race-known-app-missing'
 SESSION_TIMEOUT = 420  # s; a hanging session is a machinery error (exit 2), never a violation
 DELAYS = [0, 0, 0, 1, 1, 2, 3, 5, 8, 13, 20, 40]
-FAULTS = ['unknownApp', 'badEncoding', 'missingColumn']
+FAULTS = ['unknownApp', 'badEncoding', 'missingColumn', 'badAccept']
+WANT = {'unknownApp': ('error', 'missingApp'), 'badEncoding': ('error', 'unsupported'),
+        'missingColumn': ('error', 'missingFeatures'), 'badAccept': ('error', 'unsupported')}
+# how the controller of a controlled session weighs the kinds of action it can take next
+CTL_STYLES = {
+    'uniform': {'arrive': 1, 'start': 1, 'list': 1, 'gate': 1},
+    'flood': {'arrive': 8, 'start': 4, 'list': 1, 'gate': 0.2},      # everything in flight before any result
+    'drain': {'arrive': 0.3, 'start': 1, 'list': 1, 'gate': 4},      # close to one request at a time
+    'park': {'arrive': 4, 'start': 4, 'list': 0.15, 'gate': 1},      # threads sit inside inventory.list() for long
+    'starve': {'arrive': 2, 'start': 0.3, 'list': 1, 'gate': 2},     # off-loop calls are started late
+}
 
 
 class C16(fw.Check):
@@ -351,6 +906,8 @@ class C16(fw.Check):
             req['app'], req['appidx'] = rng.choice(['nope', 'app9', 'App0x']), 9
         if fault == 'badEncoding':
             req['enc'] = rng.choice(['foo/bar', 'application/x-unknown', 'text/weird'])
+        if fault == 'badAccept':
+            req['accept'] = rng.choice(['foo/bar', 'application/x-unknown', 'image/png'])
         return req
 
     def _session(self, sid: str, nbatches: int, sizes=None, processes=None, napps=None, faultrate=None):
@@ -370,6 +927,48 @@ class C16(fw.Check):
             batches.append({'requests': reqs, 'deadline_s': 90})
         return {'sid': sid, 'kind': 'random', 'projects': projects, 'apps': apps, 'processes': processes,
                 'batches': batches}
+
+    def _ctl_session(self, sid: str, nrounds: int, gate_list=None, napps=None, processes=None, sizes=None,
+                     faultrate=None):
+        """a controlled session: one engine, `nrounds` rounds; every round is a set of requests driven to completion
+        under a schedule the controller picks with the round's seed, weights, order and burst rate."""
+        rng = self.rng
+        napps = napps or rng.choice([1, 2, 2, 3, 3])
+        projects, apps = self._topology(napps)
+        plan = {'sid': sid, 'kind': 'ctl', 'projects': projects, 'apps': apps,
+                'processes': processes or rng.choice([1, 2, 2, 3, 4]),
+                'gate_list': (rng.random() < 0.6) if gate_list is None else gate_list}
+        of_app, _ = self._instances(plan)
+        rounds, c = [], 0
+        for k in range(nrounds):
+            n = sizes[k] if sizes else rng.choice([1, 2, 2, 3, 3, 4, 4, 5, 6, 6, 8, 8, 12, 16])
+            rate = rng.choice([0.0, 0.0, 0.15, 0.3, 0.5]) if faultrate is None else faultrate
+            reqs = []
+            for _ in range(n):
+                r = self._request(c, napps, rng.choice(FAULTS) if rng.random() < rate else None, maxdelay=0)
+                r['arrival_ms'] = 0
+                r['inst'] = of_app[r['appidx']] if r['appidx'] < len(of_app) else None
+                reqs.append(r)
+                c += 1
+            style = rng.choice(sorted(CTL_STYLES))
+            rounds.append({'requests': reqs, 'seed': rng.randrange(1 << 30), 'style': style,
+                           'weights': CTL_STYLES[style], 'order': rng.choice(['random', 'random', 'fifo', 'lifo']),
+                           'burst': rng.choice([0.0, 0.0, 0.0, 0.15, 0.4])})
+        plan['rounds'] = rounds
+        plan['batches'] = [{'requests': r['requests'], 'deadline_s': 90} for r in rounds]
+        return plan
+
+    def _ctl_race_session(self, sid: str):
+        """the descriptor race under the controller: first requests for known applications (and an unknown one) with
+        every thread parked inside inventory.list(); order lifo/fifo so that both interleavings occur."""
+        plan = self._ctl_session(sid, 2, gate_list=True, napps=2, processes=self.rng.choice([2, 3, 4]), sizes=[3, 4],
+                                 faultrate=0.0)
+        plan['rounds'][0].update(style='park', weights=CTL_STYLES['park'], order=self.rng.choice(['fifo', 'lifo']),
+                                 burst=0.0)
+        for i, r in enumerate(plan['rounds'][0]['requests']):  # two first requests for app0, one for app1
+            r.update(appidx=0 if i < 2 else 1, app='app0' if i < 2 else 'app1')
+            r['inst'] = self._instances(plan)[0][r['appidx']]
+        return plan
 
     def _positions_session(self, sid: str):
         """all fault kinds x all positions of a batch of 4 (arrival order = position)."""
@@ -411,7 +1010,7 @@ class C16(fw.Check):
         for i, r in enumerate(mid):
             r['arrival_ms'] = 5 * i
         later = [self._request(4, 1, None, maxdelay=0)]
-        return {'sid': sid, 'kind': 'fatal', 'projects': projects, 'apps': apps, 'processes': 1, 'shutdown_s': 6,
+        return {'sid': sid, 'kind': 'fatal', 'projects': projects, 'apps': apps, 'processes': 1,
                 'batches': [{'requests': first, 'deadline_s': 60}, {'requests': mid, 'deadline_s': 8},
                             {'requests': later, 'deadline_s': 8}]}
 
@@ -419,7 +1018,7 @@ class C16(fw.Check):
     def _scratchdir(self) -> str:
         if self._scratch is None:
             self._scratch = tempfile.mkdtemp(prefix='verif-c16-')
-            for name, text in (('c16_support.py', SUPPORT), ('c16_session.py', SESSION)):
+            for name, text in (('c16_support.py', SUPPORT), ('c16_session.py', SESSION), ('c16_ctl.py', CTL_SESSION)):
                 with open(os.path.join(self._scratch, name), 'w') as f:
                     f.write(text)
         return self._scratch
@@ -441,23 +1040,35 @@ class C16(fw.Check):
         env['PYTHONPATH'] = os.pathsep.join([fw.REPO, scratch, env.get('PYTHONPATH', '')])
         env['PYTHONWARNINGS'] = 'ignore'
         t0 = time.time()
-        proc = subprocess.Popen([sys.executable, os.path.join(scratch, 'c16_session.py'), planfile], env=env, cwd=root,
-                                stdout=subprocess.PIPE, stderr=subprocess.PIPE, text=True, start_new_session=True)
+        script = 'c16_ctl.py' if plan['kind'] == 'ctl' else 'c16_session.py'
+        outfile, errfile = os.path.join(root, 'stdout'), os.path.join(root, 'stderr')
+        # output goes to files: the engine's children (managers, pools, workers) inherit the descriptors and may
+        # outlive the session process by a moment
+        with open(outfile, 'w') as fo, open(errfile, 'w') as fe:
+            proc = subprocess.Popen([sys.executable, os.path.join(scratch, script), planfile], env=env, cwd=root,
+                                    stdout=fo, stderr=fe, start_new_session=True)
+            try:
+                proc.wait(timeout=SESSION_TIMEOUT)
+                hung = False
+            except subprocess.TimeoutExpired:
+                hung = True
+            finally:
+                try:
+                    os.killpg(proc.pid, signal.SIGKILL)  # engine, managers, pools, workers: nothing survives a session
+                except (ProcessLookupError, PermissionError):
+                    pass
+                try:
+                    proc.wait(timeout=10)
+                except Exception:  # pylint: disable=broad-except
+                    pass
         try:
-            out, err = proc.communicate(timeout=SESSION_TIMEOUT)
-        except subprocess.TimeoutExpired:
-            out, err = None, 'timeout'
+            with open(outfile) as f:
+                out = f.read()
+            with open(errfile) as f:
+                err = f.read()
         finally:
-            try:
-                os.killpg(proc.pid, signal.SIGKILL)  # engine, managers, pools, workers: nothing survives a session
-            except (ProcessLookupError, PermissionError):
-                pass
-            try:
-                proc.communicate(timeout=10)
-            except Exception:  # pylint: disable=broad-except
-                pass
             shutil.rmtree(root, ignore_errors=True)
-        if out is None:
+        if hung:
             raise fw.MachineryError(f"serving session {plan['sid']} did not finish within {SESSION_TIMEOUT}s")
         line = next((ln for ln in out.split('\n') if ln.startswith('C16-TRACE ')), None)
         if line is None:
@@ -465,7 +1076,7 @@ class C16(fw.Check):
                                     f"{(err or '')[-1500:]}")
         trace = json.loads(line[len('C16-TRACE '):])
         trace['wall'] = round(time.time() - t0, 2)
-        return trace
+        return self._shape_ctl(plan, trace) if plan['kind'] == 'ctl' else trace
 
     def _run_sessions(self, plans: list[dict], parallel: int) -> list[dict]:
         self._scratchdir()  # created before the threads start
@@ -535,7 +1146,7 @@ class C16(fw.Check):
         for b in plan['batches']:
             for r in b['requests']:
                 kind = {'missingColumn': 'missingColumn', 'fatal': 'fatal'}.get(r['fault'], 'ok')
-                callers.append([r['appidx'], r['fault'] == 'badEncoding', kind, r['token']])
+                callers.append([r['appidx'], r['fault'] == 'badEncoding', r['fault'] == 'badAccept', kind, r['token']])
         return ['cfg', callers, list(range(len(plan['apps']))), [[a, i] for a, i in enumerate(of_app)],
                 plan['processes'], locked]
 
@@ -553,6 +1164,181 @@ class C16(fw.Check):
                 else:
                     evs.append(['answer', ev['c'], ['error', 'odd']])  # not an outcome of the model: rejected
         return evs
+
+    # ---- controlled sessions: trace shaping, translation into a model schedule -----------------------------------
+    @staticmethod
+    def _shape_ctl(plan, raw):
+        """the controlled session's output in the form the common oracle / validation code reads"""
+        for r in raw['rounds']:
+            if r.get('aborted'):
+                raise fw.MachineryError(f"controlled session {plan['sid']}: {r['aborted']}")
+        raw['events'] = [e for e in raw['log'] if e['ev'] in ('arrive', 'answer')]
+        raw['batches'] = [{'lost': r['lost'], 'alive': r['alive'], 'wall': r['wall']} for r in raw['rounds']]
+        return raw
+
+    def _schedule_of(self, plan, trace):
+        """linearise the fine-grained log of a controlled session into a schedule of the model:
+        -> (items, None) | (None, why the log has not the expected shape).  Book-keeping only; whether the schedule
+        is one of the model is decided by the model driver."""
+        of_app, _ = self._instances(plan)
+        reqs = {r['c']: r for b in plan['batches'] for r in b['requests']}
+        nworkers = plan['processes']
+        items = []
+        holder, holder_at, released, flushed = None, 0, set(), set()
+        queue: dict = {}
+        slot: dict = {}       # caller -> worker while the model holds its task
+        resq: dict = {}
+        gated, early, predelivered, submitted = set(), set(), set(), set()
+
+        def inst(c):
+            return reqs[c]['inst']
+
+        def free(i):
+            used = {w for x, w in slot.items() if inst(x) == i}
+            return next((w for w in range(nworkers) if w not in used), None)
+
+        def flush_holder():
+            nonlocal holder, holder_at
+            if holder is not None:
+                if holder not in released:
+                    return 'two threads inside inventory.list()'
+                items.append(['desc*', holder])
+                flushed.add(holder)
+                holder = None
+            return None
+
+        def finish(x):
+            i = inst(x)
+            items.append(['finish', i, slot.pop(x)])
+            resq.setdefault(i, []).append(x)
+
+        def take_upto(c):
+            """the model's queue is FIFO: everything ahead of c is taken first"""
+            i = inst(c)
+            while True:
+                w = free(i)
+                if w is None:
+                    done = [x for x in slot if inst(x) == i and x in gated]
+                    if not done:
+                        return 'more tasks being computed than workers'
+                    finish(done[0])
+                    continue
+                h = queue[i].pop(0)
+                items.append(['take', i, w])
+                slot[h] = w
+                if reqs[h]['fault'] == 'missingColumn':
+                    finish(h)
+                elif h != c:
+                    early.add(h)
+                if h == c:
+                    return None
+
+        def delivered(c):
+            i = inst(c)
+            if c in predelivered:
+                return None
+            if c in queue.get(i, []):
+                why = take_upto(c)
+                if why:
+                    return why
+            if c in slot:
+                finish(c)
+            while True:
+                if not resq.get(i):
+                    return 'a result reached its caller that no worker produced'
+                x = resq[i].pop(0)
+                items.append(['deliver', i])
+                if x == c:
+                    return None
+                predelivered.add(x)
+
+        for e in trace['log']:
+            ev, c = e['ev'], e['c']
+            why = None
+            if ev == 'arrive':
+                items.append(['arrive', c])
+            elif ev == 'park':
+                why = flush_holder() if holder != c else None
+                holder, holder_at = c, len(items)
+                items.append(['desc', c])
+            elif ev == 'list':
+                released.add(c)
+            elif ev == 'gate':
+                gated.add(c)
+            elif ev == 'offdone' and e['k'] == 1:
+                if c in flushed:
+                    flushed.discard(c)
+                elif holder is not None and holder != c and holder not in released:
+                    # c left _get_descriptor although the holder still sits in list(): c went through before the
+                    # holder entered (its completion is only logged later)
+                    items.insert(holder_at, ['desc*', c])
+                    holder_at += 1
+                else:
+                    if holder is not None and holder != c:
+                        why = flush_holder()
+                    items.append(['desc*', c])
+                    if holder == c:
+                        holder = None
+            elif ev == 'offdone' and e['k'] == 2:
+                if reqs[c]['fault'] == 'badEncoding':
+                    items.append(['decodeFail', c])
+                elif not e['ok']:
+                    why = 'decoding / selection failed for a decodable request'
+                else:
+                    items.append(['submit', c])
+                    submitted.add(c)
+                    queue.setdefault(inst(c), []).append(c)
+            elif ev == 'offdone' and e['k'] == 3:
+                items.append(['respond', c])
+            elif ev == 'offdone':
+                why = 'more than three off-loop calls for one request'
+            elif ev == 'taken':
+                if c in early:
+                    early.discard(c)
+                elif c not in queue.get(inst(c), []):
+                    why = 'a task is being computed that was not submitted (or twice)'
+                else:
+                    why = take_upto(c)
+            elif ev == 'offload' and e['k'] == 3:
+                why = delivered(c) if c in submitted else 'third off-loop call without a submitted task'
+            elif ev == 'answer' and c in submitted and not e['ok'] and e['cls'] != 'Unsupported':
+                why = delivered(c)  # the task's exception re-raised to the caller
+            if why:
+                return None, f'{why} (event {e["seq"]}: {ev} {c})'
+        return items, None
+
+    def _follow(self, plan, trace):
+        """evidence of model fidelity (never an alarm: the mechanism may legitimately change): does the model follow
+        the controlled session control point by control point, with the same answers in the same order?"""
+        stat = self.extra.setdefault('controlled', {
+            'sessions': 0, 'rounds': 0, 'actions': 0, 'requests': 0, 'parks': 0,
+            'followed_by_model': 0, 'followed_same_answer_order': 0, 'not_followed': [], 'flags': {}})
+        stat['sessions'] += 1
+        stat['rounds'] += len(trace['rounds'])
+        stat['actions'] += sum(len(r['performed']) for r in trace['rounds'])
+        stat['requests'] += sum(1 for e in trace['log'] if e['ev'] == 'arrive')
+        stat['parks'] += sum(1 for e in trace['log'] if e['ev'] == 'park')
+        for k, v in trace['flags'].items():
+            stat['flags'][k] = stat['flags'].get(k, 0) + v
+        if trace['flags']:
+            stat['not_followed'].append(f"{plan['sid']}: settling flags {trace['flags']} {trace['flag_notes'][:3]}")
+            return
+        items, why = self._schedule_of(plan, trace)
+        if items is None:
+            stat['not_followed'].append(f"{plan['sid']}: {why}")
+            return
+        verdict = sexp.num(sexp.loads(self.model([sexp.dumps(['replay', self._cfg_sexp(plan), items])])[0]))
+        events = self._events_sexp(plan, trace)
+        observed = [(e[1], e[2]) for e in events if e[0] == 'answer']
+        if verdict[0] != 'ok':
+            stat['not_followed'].append(f"{plan['sid']}: {verdict} at {items[verdict[1]] if len(verdict) > 1 else ''}")
+            return
+        got = [(a[0], a[1]) for a in verdict[2]]
+        if sorted(got, key=str) != sorted(observed, key=str):
+            stat['not_followed'].append(f"{plan['sid']}: answers differ: model {got[:6]} observed {observed[:6]}")
+            return
+        stat['followed_by_model'] += 1
+        stat['followed_same_answer_order'] += int(got == observed)
 
     # ---- oracle (from the property text; independent of the model) -----------------------------------------------
     def _oracle(self, plan, trace):
@@ -588,15 +1374,15 @@ class C16(fw.Check):
             k = self._canon(plan, got[0])
             healthy = r['fault'] is None
             want_inst = of_app[r['appidx']] if r['appidx'] < len(of_app) else None
-            if r['fault'] == 'unknownApp':
-                want = ('error', 'missingApp')
-            elif r['fault'] == 'badEncoding':
-                want = ('error', 'unsupported')
-            elif r['fault'] == 'missingColumn':
-                want = ('error', 'missingFeatures')
+            if r['fault'] in WANT:
+                want = WANT[r['fault']]
             else:
                 want = ('value', want_inst, r['token'], r['rows'])
             if k == want:
+                if k[0] == 'value' and got[0].get('enc') != r['accept']:
+                    out.append((f'caller {c} accepts {r["accept"]} and was answered in {got[0].get("enc")} '
+                                f'(the encoding another request asked for)', 'crossed-accept',
+                                {'c': c, 'got': got[0].get('enc'), 'want': r['accept']}))
                 continue
             d = {'c': c, 'got': list(k), 'want': list(want)}
             if k[0] == 'value' and k[2] != r['token']:
@@ -626,14 +1412,25 @@ class C16(fw.Check):
         return out
 
     # ---- correspondence ------------------------------------------------------------------------------------------
-    def _witness(self, plan, detail):
-        slim = {k: plan[k] for k in ('kind', 'projects', 'apps', 'processes')}
+    def _witness(self, plan, detail, trace=None):
+        keep = ('c', 'appidx', 'app', 'enc', 'accept', 'body', 'rows', 'token', 'delay', 'fault', 'arrival_ms', 'inst')
+        slim = {k: plan[k] for k in ('kind', 'projects', 'apps', 'processes', 'gate_list') if k in plan}
         if 'race' in plan:
             slim['race'] = plan['race']
-        slim['batches'] = [{'deadline_s': b['deadline_s'],
-                            'requests': [{k: r[k] for k in ('c', 'appidx', 'app', 'enc', 'accept', 'body', 'rows', 'token',
-                                                            'delay', 'fault', 'arrival_ms')} for r in b['requests']]}
+        slim['batches'] = [{'deadline_s': b['deadline_s'], 'requests': [{k: r[k] for k in keep if k in r}
+                                                                       for r in b['requests']]}
                            for b in plan['batches']]
+        if plan['kind'] == 'ctl':
+            # the schedule that was actually driven is part of the witness: the replay performs the same actions
+            done = (trace or {}).get('rounds', [])
+            slim['rounds'] = [dict({k: r[k] for k in ('seed', 'style', 'weights', 'order', 'burst')},
+                                   requests=slim['batches'][i]['requests'],
+                                   actions=done[i]['performed'] if i < len(done) else None)
+                              for i, r in enumerate(plan['rounds'])]
+            if detail and 'batch' not in detail:
+                bi = next((i for i, b in enumerate(plan['batches']) if any(r['c'] == detail.get('c') for r in b['requests'])), None)
+                if bi is not None:  # rounds after the failing one are not needed
+                    slim['rounds'], slim['batches'] = slim['rounds'][:bi + 1], slim['batches'][:bi + 1]
         return {'kind': 'session', 'plan': slim, 'detail': detail}
 
     def _judge(self, plan, trace, account=True):
@@ -651,12 +1448,12 @@ class C16(fw.Check):
         observed = sorted((e[1], e[2]) for e in events if e[0] == 'answer')
         if verdict[0] != 'ok':
             self.diverge(f"trace of session {plan['sid']} is not the projection of a model schedule: {verdict}",
-                         self._witness(plan, None), {'events': events[:200]}, verdict)
+                         self._witness(plan, None, trace), {'events': events[:200]}, verdict)
         else:
             model_answers = sorted((a[0], a[1]) for a in verdict[2])
             if not lost and (model_answers != observed or verdict[1] != 'true'):
                 self.diverge(f"model answers differ from the observed ones in session {plan['sid']}",
-                             self._witness(plan, None), observed[:50], [verdict[1], model_answers[:50]])
+                             self._witness(plan, None, trace), observed[:50], [verdict[1], model_answers[:50]])
             # schedule independence: a pseudo-random complete model schedule gives the same answers
             if rnd is not None and (rnd[0] != 'ok' or rnd[1] != 'true'
                                     or (not lost and sorted((a[0], a[1]) for a in rnd[3]) != observed)):
@@ -672,18 +1469,24 @@ class C16(fw.Check):
                 n = len(reqs)
                 nf = sum(1 for r in reqs if r['fault'])
                 bucket = '1' if n == 1 else '2-4' if n <= 4 else '5-16' if n <= 16 else '17-64'
+                if bi >= len(trace['batches']):
+                    continue  # the session stopped before this batch / round
+                performed = tuple(map(tuple, trace['rounds'][bi]['performed'])) if plan['kind'] == 'ctl' else ()
                 key = (plan['kind'], plan['processes'], tuple((r['appidx'], r['fault'], r['rows'], r['delay'],
                                                               r['arrival_ms'], r['enc']) for r in reqs),
-                       tuple(map(str, self._instances(plan)[0])))
+                       tuple(map(str, self._instances(plan)[0])), performed)
                 # answer order vs arrival order: is the batch really interleaved?
                 order = [e['c'] for e in trace['events'] if e['ev'] == 'answer' and reqs[0]['c'] <= e['c'] <= reqs[-1]['c']]
                 arr = [e['c'] for e in trace['events'] if e['ev'] == 'arrive' and reqs[0]['c'] <= e['c'] <= reqs[-1]['c']]
-                self.case(key, f"{plan['kind']} n={bucket} pool={plan['processes']} apps={len(plan['apps'])} "
+                kind = plan['kind'] if plan['kind'] != 'ctl' else f"ctl/{plan['rounds'][bi]['style']}"
+                sample = {'session': plan['sid'], 'pool': plan['processes'], 'apps': plan['apps'], 'batch': bi,
+                          'n': n, 'faults': nf, 'arrival': arr[:12], 'answered': order[:12],
+                          'first': [self._canon(plan, ans[c]) for c in arr[:4] if c in ans]}
+                if plan['kind'] == 'ctl':
+                    sample['schedule'] = [f'{a[0]} {a[1]}' for a in performed[:40]]
+                self.case(key, f"{kind} n={bucket} pool={plan['processes']} apps={len(plan['apps'])} "
                                f"faults={'y' if nf else 'n'} reordered={'y' if order != arr else 'n'}",
-                          nontrivial=n >= 2 and nf < n,
-                          sample={'session': plan['sid'], 'pool': plan['processes'], 'apps': plan['apps'], 'batch': bi,
-                                  'n': n, 'faults': nf, 'arrival': arr[:12], 'answered': order[:12],
-                                  'first': [self._canon(plan, ans[c]) for c in arr[:4] if c in ans]})
+                          nontrivial=n >= 2 and nf < n, sample=sample)
         return findings
 
     def _plans(self):
@@ -700,14 +1503,26 @@ class C16(fw.Check):
             plans.append(self._positions_session('pos2'))
         return plans
 
+    def _ctl_plans(self):
+        nsessions, nrounds, nrace = (6, 12, 2) if self.quick else (40, 30, 8)
+        plans = [self._ctl_race_session(f'crace{i}') for i in range(nrace)]
+        for i in range(nsessions):
+            sizes = None
+            if i == 0:  # the extremes of the quantifier always occur, on the largest pool
+                sizes = ([64, 1, 32, 2] + [self.rng.choice([3, 4, 6, 8]) for _ in range(nrounds)])[:nrounds]
+            plans.append(self._ctl_session(f'c{i}', nrounds, sizes=sizes,
+                                           processes=4 if i == 0 else [1, 2, 3][i % 3] if i < 4 else None))
+        return plans
+
     def correspondence(self):
         try:
             plans = self._plans()
             race = [self._race_session('race-same', True), self._race_session('race-two', False)]
             fatal = self._fatal_session('fatal')
-            everything = race + [fatal] + plans
-            # long sessions first; 5 engines at a time (each up to 3 executors x (manager + pool + <=4 workers))
-            traces = self._run_sessions(everything, parallel=self.n(5, 6))
+            everything = self._ctl_plans() + race + [fatal] + plans
+            # 6 engines at a time (each up to 3 executors x (manager + pool + <=4 workers)); nothing in a session
+            # depends on how fast it runs
+            traces = self._run_sessions(everything, parallel=self.n(6, 7))
             walls = []
             for plan, trace in zip(everything, traces):
                 walls.append(trace['wall'])
@@ -715,10 +1530,12 @@ class C16(fw.Check):
                     self._record_fatal(plan, trace)
                     continue
                 for what, sig, detail in self._judge(plan, trace, account=True):
-                    self.violate(what, self._witness(plan, detail) if plan['kind'] != 'race'
+                    self.violate(what, self._witness(plan, detail, trace) if plan['kind'] != 'race'
                                  else {'kind': 'descriptor-race', 'same_app': plan['race']['same_app']}, sig, detail)
                 if plan['kind'] == 'race':
                     self._record_race(plan, trace)
+                if plan['kind'] == 'ctl':
+                    self._follow(plan, trace)
             self.extra['sessions'] = len(everything)
             self.extra['requests'] = sum(len(b['requests']) for p in everything for b in p['batches'])
             self.extra['session_wall_s'] = {'max': max(walls), 'sum': round(sum(walls), 1)}
@@ -773,6 +1590,9 @@ class C16(fw.Check):
     def search(self, reason):
         """re-run the diverging sessions (three fresh runs each: the interleaving differs) plus denser fault
         mixes around them; the oracle on the real trace decides."""
+        if self.violations:
+            self.notes.append(f'failing-input search ({reason}): not needed, the oracle already has failing inputs')
+            return
         try:
             seeds = [d.case['plan'] for d in self.divergences if isinstance(d.case, dict) and 'plan' in d.case][:4]
             plans = []
@@ -800,7 +1620,8 @@ class C16(fw.Check):
                 return None
             trace = self._run_session(plan)
             for what, sig, detail in self._oracle(plan, trace):
-                return fw.Violation(what, w, sig, detail)
+                if entry.get('signature') in (None, sig):  # a listed entry is about one root cause only
+                    return fw.Violation(what, w, sig, detail)
             return None
         finally:
             self._cleanup()
